@@ -188,7 +188,18 @@ def run(chk):
     dcases = []
     for _ in range(nprog):
         n = rng.choice([1, 2, 3, 4, 7, 8, 9, 16, 24, 32, 33, 64, 65, 128])
-        if rng.random() < 0.6:
+        r0 = rng.random()
+        if r0 < 0.12 and n <= 33:
+            # arithmetic on a sized (hex or binary) literal: the result is an unsized value, accepted by its value alone,
+            # never by the size its operand had
+            digits = rng.randrange(1, max(2, n // 4 + 2))
+            a = rng.randrange(0, 16 ** digits)
+            op = rng.choice(["<<", "<<", "+", "*", "-"])
+            d = rng.randrange(0, 9) if op == "<<" else rng.randrange(0, 300)
+            lit = ("0x%0*x" % (digits, a)) if rng.random() < 0.7 else ("0b" + format(a, "0%db" % (4 * digits)))
+            v = {"<<": a << d, "+": a + d, "*": a * d, "-": a - d}[op]
+            dcases.append((n, v, None, "(%s %s %d)" % (lit, op, d)))
+        elif r0 < 0.6:
             b = rng.choice([-(2 ** (n - 1)), 0, 2 ** (n - 1), 2 ** n])
             v = b + rng.randrange(-3, 4) if rng.random() < 0.7 else rng.randrange(-(2 ** n) - 4, 2 ** n + 5)
             dcases.append((n, v, None, spell(rng, v) if rng.random() < 0.8 else None))
